@@ -101,9 +101,9 @@ func lockScenarios(quick bool) []*scenario {
 	a1 := cmdlib.SvcSpec{ID: "a1", Name: svcName, Port: 80}
 	a1p := cmdlib.SvcSpec{ID: "a1", Name: svcName, Port: 81}
 	a2 := cmdlib.SvcSpec{ID: "a2", Name: svcName, Port: 80}
-	tokenSeed := []world.Op{cmdlib.PolicySet("p1", "policy-one", `service_prefix "" { policy = "read" } node_prefix "" { policy = "read" }`), cmdlib.TokenSet(cmdlib.TokenSpec{ID: "t1", Policies: []string{"p1"}}, false, 0, false)}
+	tokenSeed := []world.Op{cmdlib.PolicySet("p1", "policy-one", `service_prefix "" { policy = "read" } node_prefix "" { policy = "read" }`), cmdlib.TokenSet(cmdlib.TokenSpec{ID: "t1", Policies: []string{"p1"}}, false, 0, false), cmdlib.TokenSet(cmdlib.TokenSpec{ID: "t2", Policies: []string{"p1"}}, false, 0, false)}
 	seed := append(append([]world.Op{}, tokenSeed...), cmdlib.RegNode(n1), cmdlib.RegNode(n2), cmdlib.RegService(n1, a1), cmdlib.Resolver(svcName, cmdlib.ResolverOpt{}).Upsert())
-	aclWrite := write{op: cmdlib.TokenSet(cmdlib.TokenSpec{ID: "t1", Policies: []string{"p1"}, Desc: "changed"}, false, 0, false), acl: true}
+	aclWrite := write{op: cmdlib.TokenSet(cmdlib.TokenSpec{ID: "t2", Policies: []string{"p1"}, Desc: "changed"}, false, 0, false), acl: true}
 	hA, rA := healthSubject(svcName, false, nil), resolverSubject(svcName, nil)
 	mk := func(label string, ws []write, subj []subject, progs [][]string) *scenario {
 		return &scenario{label: "lock level: " + label, seed: seed, writes: ws, subj: subj, programs: progs, once: newOnce()}
